@@ -59,6 +59,43 @@ version: '2.0'
 """
 
 
+FOREIGN = '99999999-8888-7777-6666-555555555555'
+
+
+def _foreign_filter(rest, sim, owner, res, rule, st):
+    """A private resource of another project must not appear in a collection
+    filtered by that project's id while the admin-only rule is denied."""
+    from mistral.services import triggers
+    viol = []
+    fctx = rest.make_ctx(FOREIGN)
+    sim.auth_context.set_ctx(fctx)
+    try:
+        if not getattr(_foreign_filter, 'made', None) == id(sim.W):
+            sim.create_workflows(WF_TEXT % 'foreign_wf')
+            triggers.create_cron_trigger('foreign_ct', 'foreign_wf', {}, {},
+                                         '* * * * *', None, None, None)
+            _foreign_filter.made = id(sim.W)
+    finally:
+        sim.auth_context.set_ctx(sim.CTX)
+    names = {'workflows': 'foreign_wf', 'cron_triggers': 'foreign_ct'}
+    for q in ('project_id=%s' % FOREIGN,
+              'project_id=%s&fields=id,name' % FOREIGN):
+        rest.restore_rules()
+        rest.deny([rule])
+        status, data = rest.request(owner, 'GET', '/v2/%s?%s' % (res, q))
+        rest.restore_rules()
+        listed = names[res] in str(data)
+        st.case(runner.fp(['foreign_filter', res, q]), True,
+                ['foreign_project_filter', 'status_%d' % status],
+                {'url': '/v2/%s?%s' % (res, q), 'status': status})
+        if status != 403 and listed:
+            viol.append({'kind': 'project-filter-lists-foreign-private-'
+                         'resource-without-the-admin-rule',
+                         'detail': {'resource': res, 'query': q,
+                                    'status': status}})
+    return viol
+
+
 def fixtures(owner):
     """Create one resource of every type as `owner`."""
     from mv import sim, enginerun
@@ -402,7 +439,12 @@ def run_matrix(st, stage):
                       'project_id=99999999-8888-7777-6666-555555555555'):
                 if res != 'executions' and q.startswith('project_id'):
                     # for the other resources project_id is a plain filter
-                    # applied on top of the tenant-scoped query
+                    # applied on top of the tenant-scoped query: without the
+                    # admin-only rule it must not open another project's
+                    # private resources (checked by content, not by status)
+                    if res in ('workflows', 'cron_triggers'):
+                        viol.extend(_foreign_filter(rest, sim, owner, res,
+                                                    rule, st))
                     continue
                 rest.restore_rules()
                 rest.deny([rule])
